@@ -41,6 +41,7 @@ fn stdin_shapes(cap_hint: usize) -> Vec<(Vec<String>, String, &'static str)> {
         (vec!["pq".into(), "rs".into()], "pq\nrs\n".into(), "two lines"),
         (vec![huge.clone()], format!("{}\n", huge), "300 characters"),
         (vec!["h\u{e9}llo".into()], "h\u{e9}llo\n".into(), "non-ASCII (UTF-8) line"),
+        (vec!["\u{e9}t\u{e9}".into(), "\u{20ac} 42".into()], "\u{e9}t\u{e9}\n\u{20ac} 42\n".into(), "lines starting with a multi-byte character"),
     ]
 }
 
@@ -92,6 +93,11 @@ fn base_data() -> Vec<DataDef> {
     }
     d.push(DataDef::Set(0x0020));
     d.push(DataDef::Str(None, W::B, "Hello, 8086 world! The quick brown fox.".into()));
+    // bytes that happen to be well-formed UTF-8 (c3 a9 = e-acute, e2 82 ac = euro sign) between ASCII text
+    d.push(DataDef::Set(0x0030));
+    for b in [0x63u8, 0x61, 0x66, 0xC3, 0xA9, 0x20, 0xE2, 0x82, 0xAC, 0x35, 0xC3, 0xA9, 0x21] {
+        d.push(db(None, b as i32));
+    }
     d
 }
 
@@ -246,13 +252,14 @@ fn int10_0a(thorough: bool) -> Vec<Case> {
 fn int10_13(thorough: bool) -> Vec<Case> {
     let mut v = Vec::new();
     let dls: Vec<u32> = if thorough { vec![0, 1, 2, 5, 79, 254, 255] } else { vec![0, 1, 5, 79, 255] };
-    let cxs: Vec<u32> = if thorough { vec![0, 1, 5, 39, 300, 4096] } else { vec![0, 1, 5, 39, 300] };
+    let cxs: Vec<u32> = if thorough { vec![0, 1, 4, 5, 13, 39, 300, 4096] } else { vec![0, 1, 5, 13, 39, 300] };
     let places: Vec<(u16, u16, &str)> = vec![
         (0x0020, 0x0000, "text at 0x200"),
         (0x0000, 0x0200, "same text through ES=0"),
         (0xFFFD, 0x0010, "patterned bytes, string crosses 2^20"),
         (0x0010, 0xFFF8, "offset BP+i wraps at 16 bits"),
         (0xFFFF, 0x000F, "last byte of memory then wrap to 0"),
+        (0x0030, 0x0000, "text whose high bytes form well-formed UTF-8 sequences"),
     ];
     for (es, bp, pname) in places.iter() {
         for dl in dls.iter() {
@@ -420,6 +427,15 @@ pub fn run(tier: &Tier) -> i32 {
         let shown: String = src.lines().filter(|l| !l.starts_with("db ")).collect::<Vec<_>>().join("\n");
         c.sample(json!({"site": cs.site, "note": cs.note, "source_without_db_lines": shown, "stdin_raw": cs.stdin_raw}));
     }
+    // the written form of a character must not depend on its neighbours: a byte value seen both raw and
+    // UTF-8 encoded is a violation (either form alone is accepted)
+    {
+        let g = crate::cliobs::HIGH_BYTE_ENCODINGS.lock().unwrap();
+        let both: Vec<String> = (0x80..256usize).filter(|k| g[*k] == 3).map(|k| format!("0x{:02X}", k)).collect();
+        if !both.is_empty() {
+            rep.report(Viol { site: "character output".into(), field: "encoding".into(), vars: vec![], got_val: None, expected: "a byte of 0x80 or more is always written in the same form (raw, or the UTF-8 encoding of the same code point)".into(), got: format!("written raw in one place and UTF-8 encoded in another: {}", both.join(" ")), case: json!({"bytes": both}), weight: 0 });
+        }
+    }
     c.states.fetch_add(cases.len() as u64, Ordering::Relaxed);
     if out_bytes.load(Ordering::Relaxed) < 10_000 || unsup.load(Ordering::Relaxed) < 500 {
         eprintln!("MACHINERY: C18 explored too little (service output bytes {}, unsupported {})", out_bytes.load(Ordering::Relaxed), unsup.load(Ordering::Relaxed));
@@ -427,7 +443,7 @@ pub fn run(tier: &Tier) -> i32 {
     }
     let mut cov = Coverage::default();
     cov.exhaustive = true;
-    cov.rule = "every run is the real binary with a scripted stdin (pipe closed after the script). INT 21h/02: all 256 DL values x 2 prior AL. INT 21h/01: 9 stdin shapes (closed, empty line, short, exactly capacity, longer, no trailing newline, two lines, 300 characters, UTF-8) x 2 prior AL, followed by a second read and an echo. INT 21h/0Ah: 5 buffer placements (low, offset wrap at 16 bits, crossing 2^20, ending exactly at 0xFFFFF, header split by the wrap) x capacities {0,1,2,5,16,255} (thorough: 11 values) x the 9 stdin shapes, the buffer surrounded by 0xEE markers; plus a line of 1-, 2-, 3- and 4-byte characters cut by every capacity 0..length+1 (the cut falls inside a character). INT 10h/0Ah: AL x CX lattice (thorough up to CX=65535). INT 10h/13h: 5 (ES,BP) placements incl. strings crossing 2^20 and BP+i wrapping at 16 bits x DL x CX. Every AH value 0..255 other than the supported ones for both interrupts, at the first / a middle / the last line. All 25 ordered pairs of services x 3 stdin scripts. After each service the program prints all registers, the flags, the marker window around the buffer, the first 48 and the last 48 bytes of memory; service output is matched byte for byte and every printed field against the reference state".into();
+    cov.rule = "every run is the real binary with a scripted stdin (pipe closed after the script). INT 21h/02: all 256 DL values x 2 prior AL. INT 21h/01: 10 stdin shapes (closed, empty line, short, exactly capacity, longer, no trailing newline, two lines, 300 characters, UTF-8) x 2 prior AL, followed by a second read and an echo. INT 21h/0Ah: 5 buffer placements (low, offset wrap at 16 bits, crossing 2^20, ending exactly at 0xFFFFF, header split by the wrap) x capacities {0,1,2,5,16,255} (thorough: 11 values) x the 9 stdin shapes, the buffer surrounded by 0xEE markers; plus a line of 1-, 2-, 3- and 4-byte characters cut by every capacity 0..length+1 (the cut falls inside a character). INT 10h/0Ah: AL x CX lattice (thorough up to CX=65535). INT 10h/13h: 6 (ES,BP) placements incl. text whose high bytes form well-formed UTF-8, strings crossing 2^20 and BP+i wrapping at 16 bits x DL x CX. Every AH value 0..255 other than the supported ones for both interrupts, at the first / a middle / the last line. All 25 ordered pairs of services x 3 stdin scripts. After each service the program prints all registers, the flags, the marker window around the buffer, the first 48 and the last 48 bytes of memory; service output is matched byte for byte and every printed field against the reference state".into();
     cov.bounds = json!({"groups": groups.iter().map(|(n, k)| json!({"group": n, "runs": k})).collect::<Vec<_>>(), "service_output_bytes_matched": out_bytes.load(Ordering::Relaxed), "unsupported_reports_checked": unsup.load(Ordering::Relaxed), "cases_conforming_only_in_dos_encoding": dos_mode_used.load(Ordering::Relaxed), "tier": tier.name()});
     cov.assumptions = common_assumptions();
     cov.assumptions.push("characters >= 0x80 may be written as the raw byte or as the UTF-8 encoding of the same code point".into());
